@@ -307,6 +307,16 @@ Fixpoint minimum (n : tree) : res elt :=
   if lf then match es with e :: _ => Ok e | [] => Internal eIndex end
   else match ks with k :: _ => minimum k | [] => Internal eIndex end.
 
+Fixpoint maximum (n : tree) : res elt :=
+  let '(Node lf es ks) := n in
+  if lf then match rev es with e :: _ => Ok e | [] => Internal eIndex end
+  else (fix last_max (l : list tree) : res elt :=       (* self.children[-1].maximum() *)
+          match l with
+          | [] => Internal eIndex
+          | [k] => maximum k
+          | _ :: r => last_max r
+          end) ks.
+
 (* node, i = self._get_node(key); oelt = node.elts[i]; node.elts[i] = e *)
 Fixpoint replace_key (fuel : nat) (n : tree) (k : Z) (e : elt) : res (tree * elt) :=
   match fuel with
@@ -662,6 +672,44 @@ Fixpoint iter_loop (fuel : nat) (root : tree) (c : cursor) (acc : list Z) : res 
       end
   end.
 
+(* ---- collections.abc mixins on top of the primitives *)
+
+(* next(iter(self)): a fresh iterator, one step *)
+Definition first_element (b : btree) : res (option elt) :=
+  do (c, o) <- cursor_next (b_root b) new_cursor; Ok o.
+
+(* MutableMapping.clear: `try: while True: self.popitem()  except KeyError: pass`, where popitem is
+   key = next(iter(self)); value = self[key]; del self[key]  (any KeyError ends the loop) *)
+Fixpoint clear_loop (fuel : nat) (b : btree) : res btree :=
+  match fuel with
+  | O => Internal eFuel
+  | S f =>
+      do o <- first_element b;
+      match o with
+      | None => Ok b
+      | Some e =>
+          do g <- get_element b (fst e);
+          match g with
+          | None => Ok b
+          | Some _ =>
+              do (b', d) <- delete_btree b (fst e) None;
+              match d with DDel _ => clear_loop f b' | _ => Ok b' end
+          end
+      end
+  end.
+
+(* MutableSet.clear: `try: while True: self.pop()  except KeyError: pass`, pop = next(iter) ; discard *)
+Fixpoint sclear_loop (fuel : nat) (b : btree) : res btree :=
+  match fuel with
+  | O => Internal eFuel
+  | S f =>
+      do o <- first_element b;
+      match o with
+      | None => Ok b
+      | Some e => do (b', d) <- delete_btree b (fst e) None; sclear_loop f b'
+      end
+  end.
+
 (* ---- the world of the correspondence check: several trees and cursors *)
 
 Record world := mkW { w_trees : list btree; w_cursors : list (nat * cursor) }.
@@ -869,6 +917,74 @@ Definition step (w : world) (op : obs) : world * obs :=
         match get_element b k with
         | Ok (Some _) => (w, I 1)
         | Ok None => (w, I 0)
+        | r => (w, obs_err r)
+        end)
+  (* _Node.minimum / maximum of the root *)
+  | L [I 28; I ti] =>
+      with_tree w ti (fun i b => match minimum (b_root b) with Ok e => (w, obs_of_oelt (Some e)) | r => (w, obs_err r) end)
+  | L [I 29; I ti] =>
+      with_tree w ti (fun i b => match maximum (b_root b) with Ok e => (w, obs_of_oelt (Some e)) | r => (w, obs_err r) end)
+  (* MutableMapping mixins: pop(k) / popitem() / clear() / setdefault(k, v) / update({k: v}) *)
+  | L [I 40; I ti; I k] =>
+      with_tree w ti (fun i b =>
+        match get_element b k with
+        | Ok None => (w, E eKey)
+        | Ok (Some e) =>
+            mutate w i b (do (b', d) <- delete_btree b k None;
+                          Ok (b', match d with DDel _ => I (snd e) | _ => E eKey end))
+        | r => (w, obs_err r)
+        end)
+  | L [I 41; I ti] =>
+      with_tree w ti (fun i b =>
+        match first_element b with
+        | Ok None => (w, E eKey)
+        | Ok (Some e) =>
+            match get_element b (fst e) with
+            | Ok None => (w, E eKey)
+            | Ok (Some e2) =>
+                mutate w i b (do (b', d) <- delete_btree b (fst e) None;
+                              Ok (b', match d with DDel _ => L [I (fst e); I (snd e2)] | _ => E eKey end))
+            | r => (w, obs_err r)
+            end
+        | r => (w, obs_err r)
+        end)
+  | L [I 42; I ti] =>
+      with_tree w ti (fun i b =>
+        match first_element b with
+        | Ok None => (w, N)
+        | Ok (Some _) => mutate w i b (do b' <- clear_loop (S (Z.to_nat (b_size b))) b; Ok (b', N))
+        | r => (w, obs_err r)
+        end)
+  | L [I 43; I ti; I k; I v] =>
+      with_tree w ti (fun i b =>
+        match get_element b k with
+        | Ok (Some e) => (w, I (snd e))
+        | Ok None => mutate w i b (do (b', o) <- insert_element b (k, v) (b_inorder b); Ok (b', I v))
+        | r => (w, obs_err r)
+        end)
+  | L [I 44; I ti; I k; I v] =>
+      with_tree w ti (fun i b =>
+        mutate w i b (do (b', o) <- insert_element b (k, v) (b_inorder b); Ok (b', N)))
+  (* MutableSet mixins: remove(k) / pop() / clear() *)
+  | L [I 45; I ti; I k] =>
+      with_tree w ti (fun i b =>
+        match get_element b k with
+        | Ok None => (w, E eKey)
+        | Ok (Some _) => mutate w i b (do (b', d) <- delete_btree b k None; Ok (b', N))
+        | r => (w, obs_err r)
+        end)
+  | L [I 46; I ti] =>
+      with_tree w ti (fun i b =>
+        match first_element b with
+        | Ok None => (w, E eKey)
+        | Ok (Some e) => mutate w i b (do (b', d) <- delete_btree b (fst e) None; Ok (b', I (fst e)))
+        | r => (w, obs_err r)
+        end)
+  | L [I 47; I ti] =>
+      with_tree w ti (fun i b =>
+        match first_element b with
+        | Ok None => (w, N)
+        | Ok (Some _) => mutate w i b (do b' <- sclear_loop (S (Z.to_nat (b_size b))) b; Ok (b', N))
         | r => (w, obs_err r)
         end)
   | _ => (w, E eBadCase)
